@@ -177,7 +177,13 @@ func runRouterScenario(run *core.Run, seed int64, stallScenario bool) (tv.Trace,
 	}
 	problem := ""
 	var pmu sync.Mutex
-	setProblem := func(s string) { pmu.Lock(); if problem == "" { problem = s }; pmu.Unlock() }
+	setProblem := func(s string) {
+		pmu.Lock()
+		if problem == "" {
+			problem = s
+		}
+		pmu.Unlock()
+	}
 	var wg sync.WaitGroup
 	var evCounter int
 	for _, c := range conns {
@@ -355,7 +361,13 @@ func runRouterChurn(run *core.Run, seed int64, npub int) (tv.Trace, string) {
 	}
 	problem := ""
 	var pmu sync.Mutex
-	setProblem := func(s string) { pmu.Lock(); if problem == "" { problem = s }; pmu.Unlock() }
+	setProblem := func(s string) {
+		pmu.Lock()
+		if problem == "" {
+			problem = s
+		}
+		pmu.Unlock()
+	}
 	all := []abs.Filter{{}}
 	never := []abs.Filter{{Kinds: abs.IntSet{P: true, S: []int64{7}}}}
 	req := func(c *rconn, sub string, fs []abs.Filter, n int) bool {
